@@ -207,6 +207,24 @@ def run_case(i, rng, tier):
     wit = {"tree": S.describe(sp), "spec": sp, "stream": C.stream_json(stream), "clone": clone_kind}
 
     a = C.fill_all(S.build(sp), stream)
+    # the state need not come from fills alone: in-place merges, sums and scalings are reachable states too
+    hist = []
+    for _ in range(rng.choice([0, 0, 1, 2])):
+        step = rng.choice(["+=", "+", "*1", "+=zero"])
+        try:
+            if step == "+=":
+                a += C.fill_all(S.build(sp), S.gen_stream(rng, sp, rng.randint(0, 4)))
+            elif step == "+":
+                a = a + C.fill_all(S.build(sp), S.gen_stream(rng, sp, rng.randint(0, 4)))
+            elif step == "*1" and not S.has_transform(sp):
+                a = a * rng.choice([1, 1.0, 2.0])
+            elif step == "+=zero":
+                a += a.zero()
+            hist.append(step)
+        except Exception:  # noqa: BLE001
+            break
+    counters["state_history:" + ("+".join(hist) if hist else "fills")] = 1
+    wit["state_history"] = hist
     if clone_kind == "copy":
         b = a.copy()
     elif clone_kind == "pickle":
@@ -215,9 +233,10 @@ def run_case(i, rng, tier):
         a = a.toImmutable()
         b = Factory.fromJson(json.loads(json.dumps(a.toJson())))
     else:
-        b = C.fill_all(S.build(sp), stream)
-        if set(S.flavours_in(sp)) & {"lambda", "cached", "def", "named", "namedcached"}:
-            pass  # separately built functions with identical code compare equal by design (co_code)
+        if hist:
+            b = a.copy()  # "rebuild" only makes sense for states reached by fills alone
+        else:
+            b = C.fill_all(S.build(sp), stream)
 
     desc = None
     if mutated:
